@@ -104,6 +104,11 @@ def evaluate(seed, tier, props_override=None):
         for p in (props_override or [prop]):
             t0 = time.time()
             rc, out = sh(f"unshare -m bash -c 'mount --bind {repo} /repo && mount --bind {verif} /verif && cd /verif && ./check run {p} --tier {tier}'", timeout=7200)
+            try:
+                os.makedirs("/verif/work/seedeval", exist_ok=True)
+                open(f"/verif/work/seedeval/{name}.{p}.log", "w").write(out)
+            except Exception:
+                pass
             viol = [l for l in out.splitlines() if l.startswith("VIOLATION")]
             whats = [l.strip()[:400] for l in out.splitlines() if l.strip().startswith("what:")]
             summary = [l for l in out.splitlines() if l.startswith(f"[{p}]")]
